@@ -4,13 +4,18 @@ package props
 // is then handed the longer branch Y equals a node that only ever saw Y.
 
 import (
+	"encoding/hex"
 	"fmt"
+	"math/big"
+	"strings"
 	"testing"
 	"time"
 
 	"github.com/zenon-network/go-zenon/chain/nom"
+	"github.com/zenon-network/go-zenon/common/types"
 	"github.com/zenon-network/go-zenon/consensus"
 	"github.com/zenon-network/go-zenon/vm/constants"
+	"github.com/zenon-network/go-zenon/vm/embedded/definition"
 
 	"verifharness/pbt"
 	"verifharness/sim"
@@ -316,6 +321,39 @@ func reorgScenarioOpts(c *pbt.C, id string, check func(c *pbt.C, key string, b, 
 	}
 }
 
+// patchKeys: the keys the commits of momentums from..to wrote or deleted (from the stored redo patches).
+type c6keys struct{ keys map[string]bool }
+
+func (k *c6keys) Put(key, _ []byte) { k.keys[string(key)] = true }
+func (k *c6keys) Delete(key []byte) { k.keys[string(key)] = true }
+
+func patchKeys(n *sim.Node, from, to uint64) map[string]bool {
+	out := &c6keys{keys: map[string]bool{}}
+	for h := from; h <= to; h++ {
+		m, err := n.Chain.GetFrontierMomentumStore().GetMomentumByHeight(h)
+		if err != nil || m == nil {
+			continue
+		}
+		if p := n.Mgr.GetPatch(m.Identifier()); p != nil {
+			_ = p.Replay(out)
+		}
+	}
+	return out.keys
+}
+
+// lookups: existence test and lookup of every given key on the node's frontier store (scans do not show a key that
+// holds an empty value, lookups do).
+func lookups(n *sim.Node, keys map[string]bool) map[string]string {
+	out := map[string]string{}
+	f := n.Mgr.Frontier()
+	for k := range keys {
+		has, herr := f.Has([]byte(k))
+		v, gerr := f.Get([]byte(k))
+		out[k] = fmt.Sprintf("Has=%v,%v Get=%x,%v", has, herr, v, gerr)
+	}
+	return out
+}
+
 func bucket(n int) string {
 	switch {
 	case n <= 1:
@@ -349,7 +387,28 @@ func TestC06Rollback(t *testing.T) {
 			base := h.A.Height()
 			before := b.Dump()
 			baseID := b.Frontier().Identifier()
-			grow(c, h, "more", c.Int("more.m", 1, 5), 10)
+			minM := c.Int("more.m", 1, 5)
+			if c.Bool("createAndDelete") {
+				// an entry created and deleted within one momentum (its patch deletes a key that was absent before it): a
+				// first-time backer delegates and undelegates with two consecutive blocks
+				for _, u := range h.Users {
+					if h.W.Keys.ByAddr[u] == nil || len(h.W.Spec.Pillars) == 0 {
+						continue
+					}
+					if di, err := definition.GetDelegationInfo(h.A.Chain.GetFrontierAccountStore(types.PillarContract).Storage(), u); err == nil && di != nil {
+						continue
+					}
+					if h.ActCall(u, types.PillarContract, types.ZnnTokenStandard, big.NewInt(0), definition.ABIPillars.PackMethodPanic(definition.DelegateMethodName, h.W.Spec.Pillars[0].Name), "pillar.Delegate by a first-time backer") &&
+						h.ActCall(u, types.PillarContract, types.ZnnTokenStandard, big.NewInt(0), definition.ABIPillars.PackMethodPanic(definition.UndelegateMethodName), "pillar.Undelegate right after") {
+						c.Class("entry-created-and-deleted-within-one-momentum")
+						if minM < 2 {
+							minM = 2
+						}
+					}
+					break
+				}
+			}
+			grow(c, h, "more", minM, 10)
 			if h.Dead {
 				return
 			}
@@ -359,6 +418,7 @@ func TestC06Rollback(t *testing.T) {
 			if c.Bool("viewBefore") {
 				_ = b.DumpAt(baseID)
 			}
+			touched := patchKeys(b, base+1, h.A.Height())
 			ins := b.Chain.AcquireInsert("c06 rollback")
 			err := b.Chain.RollbackTo(ins, baseID)
 			ins.Unlock()
@@ -367,6 +427,15 @@ func TestC06Rollback(t *testing.T) {
 			}
 			if after := b.Dump(); after != before {
 				c.Failf("C06/rollback-state", "store after add+rollback of %d momentums differs from the store before: %s", h.A.Height()-base, firstDiff(before, after))
+			}
+			// "for every key": existence tests and lookups too. The node never stores empty values, so a key the removed
+			// momentums touched exists now exactly if the dump taken before they were added lists it.
+			for k, got := range lookups(b, touched) {
+				listed := strings.Contains("\n"+before, "\n"+hex.EncodeToString([]byte(k))+" - ")
+				if listed != strings.HasPrefix(got, "Has=true,<nil>") {
+					c.Failf("C06/rollback-state/lookup", "after add+rollback of %d momentums key %x answers %s; before the momentums were added the key was %s", h.A.Height()-base, []byte(k), got,
+						map[bool]string{true: "present", false: "absent"}[listed])
+				}
 			}
 			c.Step()
 			// and forward again
